@@ -108,6 +108,9 @@ def _returns_in_loops(fn):
                 continue          # `try: return f(..) except E: raise/return ..` as the last statement: handled by _conv
             if isinstance(x, ast.Try) and any(x is b for b in body) and _handlers_leave(x):
                 continue          # `try: v = f(..) except E: return None` followed by more: the rest becomes the try's else
+            if isinstance(x, ast.With) and body and x is body[-1] and not any(
+                    isinstance(z, (ast.For, ast.While, ast.Try, ast.With)) and any(isinstance(r_, ast.Return) for r_ in _own_nodes(z)) for z in _own_nodes(x) if z is not x):
+                continue          # `with ...: <returns>` as the last statement: the returns become the caller's statement inside the with
             for y in _own_nodes(x):
                 if isinstance(y, ast.Return):
                     return True
@@ -188,6 +191,10 @@ def _eligible(fn):
     return True
 
 
+def _is_called(fn, attr):
+    return any(isinstance(c, ast.Call) and c.func is attr for c in ast.walk(fn))
+
+
 def _uses_super(fn):
     return any(isinstance(x, ast.Call) and isinstance(x.func, ast.Name) and x.func.id == 'super' for x in ast.walk(fn))
 
@@ -231,6 +238,10 @@ def _conv(stmts, make):
             # last statement: each part of the try ends the helper, so the returns become the caller's statement in place
             new = ast.Try(body=_conv(list(s.body), make), handlers=[ast.ExceptHandler(type=h.type, name=h.name, body=_conv(list(h.body), make)) for h in s.handlers],
                           orelse=_conv(list(s.orelse), make) if s.orelse else [], finalbody=[])
+            out.append(new)
+            return out
+        if isinstance(s, ast.With) and _has_return([s]) and i == len(stmts) - 1:
+            new = ast.With(items=s.items, body=_conv(list(s.body), make) or [ast.Pass()])
             out.append(new)
             return out
         if isinstance(s, ast.Try) and _handlers_leave(s) and _has_return([s]):
@@ -812,6 +823,33 @@ class _Inliner:
                             cands.pop(nm, None)
         return cands
 
+    def _related(self, c1, c2):
+        if c1 is None or c2 is None:
+            return False
+        bases = {}
+        for m_, t in self.mods.items():
+            if m_ == 'luts':
+                continue
+            for n in t.body:
+                if isinstance(n, ast.ClassDef):
+                    bases[n.name] = [ast.unparse(b).split('.')[-1] for b in n.bases]
+        def anc(c, seen=()):
+            out = {c}
+            for b in bases.get(c, ()):
+                if b not in seen:
+                    out |= anc(b, seen + (c,))
+            return out
+        return c2 in anc(c1) or c1 in anc(c2)
+
+    @staticmethod
+    def _touches_private_state(fn):
+        first = (fn.args.posonlyargs + fn.args.args)[:1]
+        if not first:
+            return False
+        me = first[0].arg
+        return any(isinstance(x, ast.Attribute) and isinstance(x.value, ast.Name) and x.value.id == me and x.attr.startswith('_')
+                   and not x.attr.startswith('__') for x in ast.walk(fn) if not _is_called(fn, x))
+
     def run(self):
         cands = self.candidates()
         if not cands:
@@ -836,6 +874,10 @@ class _Inliner:
                         if _uses_super(info[3]) and (cls != info[2] or mod != info[1]) and any(
                                 isinstance(x, ast.Call) and self._call_kind(x, name, info) is not None for x in ast.walk(fn)):
                             raise _Blocked()       # zero-argument super() means something else in another class
+                        if info[2] is not None and cls != info[2] and not self._related(cls, info[2]) and self._touches_private_state(info[3]) and any(
+                                isinstance(x, ast.Call) and self._call_kind(x, name, info) is not None for x in ast.walk(fn)):
+                            raise _Blocked()       # a method reading its object's private fields stays inside its class: who may
+                            #                        consult which field is itself something the rules decide
                         self.cur_mod = mod
                         new, ch = self._process_list(fn.body, one, fn)
                         if ch:
